@@ -11,7 +11,7 @@ def write_and_run(root, prop, v, repo_dir):
     rec = dict(property=prop, failed_obligation=v["name"], clause=v["clause"], unit=v["unit"],
                obligation_text=v["meta"].get("text"), meta=v["meta"], witness=v.get("witness"),
                solver_model=v.get("model"), smt2=v.get("smt2"), replay=None)
-    confirmed = False
+    confirmed = bool(v.get("bounded"))      # a bounded stand-in ran the real code: its counterexample IS a failing input
     harness = os.path.join(root, "replay", "run_replay.py")
     if os.path.exists(harness) and v.get("witness") is not None and v.get("harness"):
         try:
